@@ -489,7 +489,7 @@ class Exec:
 
     # ---------------- expressions
     def eval(self, node):
-        if self.w.opaque_exprs and isinstance(node, (ast.Attribute, ast.Name, ast.Subscript, ast.Call)):
+        if self.w.opaque_exprs and isinstance(node, (ast.Attribute, ast.Name, ast.Subscript, ast.Call, ast.Tuple)):
             txt = ast.unparse(node)
             if txt in self.w.opaque_exprs:
                 ty = self.w.ty(self.w.opaque_exprs[txt])
@@ -1102,6 +1102,8 @@ class Exec:
             return r
         if isinstance(v.ty, TRef) and v.ty.universal and isinstance(ty, TSeq):
             return coerce(self.materialize(self.iter_of(v)), ty)
+        if isinstance(ty, TTuple) and isinstance(v.ty, TTuple) and len(ty.items) == len(v.ty.items) and v.ty != ty:
+            return V(ty, [self.co(x, t) for x, t in zip(v.t, ty.items)])      # element-wise (Optional narrowing inside tuples, e.g. dict keys)
         if isinstance(ty, TAny) and v.ty is TStr and z3.is_string_value(z3.simplify(v.t)):
             # a string literal used where an opaque (TAny) value is expected denotes one fixed element of that type
             return V(ty, z3.Const('strlit_%s_%s' % (ty.name, z3.simplify(v.t).as_string().encode().hex()), sort_of(ty)))
@@ -1773,6 +1775,25 @@ class Exec:
         pre = [f.recv] if isinstance(f, BoundMethod) else []
         a = fr.node.args
         fixed = [p.arg for p in a.posonlyargs + a.args][len(pre):]
+        # explicit leading arguments bind the fixed parameters directly (they may be of unrelated types, e.g. None)
+        lead = []
+        while args and not isinstance(args[0], tuple) and len(lead) < len(fixed): lead.append(args[0]); args = args[1:]
+        if len(lead) == len(fixed) and a.vararg:
+            seq = None; items = []
+            for x in args:
+                if isinstance(x, tuple):
+                    sv = self.iter_of(x[1]); sv = self.materialize(sv) if isinstance(sv, IterV) else sv
+                    if items:
+                        lit = seq_literal(items, T._join_all([i.ty for i in items] + [sv.ty.elem])); items = []
+                        seq = lit if seq is None else self.seq_concat(seq, lit)
+                    seq = sv if seq is None else self.seq_concat(seq, sv)
+                else: items.append(self.val(x))
+            if items:
+                lit = seq_literal(items, T._join_all([i.ty for i in items] + ([seq.ty.elem] if seq is not None else [])))
+                seq = lit if seq is None else self.seq_concat(seq, lit)
+            kwargs = dict(kwargs); kwargs['__vararg__'] = seq if seq is not None else V(TTuple([]), [])
+            return self.call_func(fr, pre + lead, kwargs, node)
+        args = lead + list(args)
         # concatenate all positionals into one sequence
         seq = None; items = []
         for x in args:
@@ -1886,7 +1907,7 @@ class Exec:
             if isinstance(v, V) and isinstance(v.ty, TTuple) and not v.t and target.id in self.frame.get('var_types', {}):
                 v = coerce(v, self.w.ty(self.frame['var_types'][target.id]))
             elif isinstance(v, V) and target.id in self.frame.get('var_types', {}):
-                v = coerce(v, self.w.ty(self.frame['var_types'][target.id]))
+                v = self.co(v, self.w.ty(self.frame['var_types'][target.id]))      # (Optional narrowing when provably not None)
             self.st.env[target.id] = v
         elif isinstance(target, (ast.Tuple, ast.List)):
             if any(isinstance(e, ast.Starred) for e in target.elts):
@@ -2050,7 +2071,18 @@ class Exec:
         for k, inv in enumerate(lc.get('invariant', [])):
             self.prove(self.eval_spec(inv), '%s/inv-init#%d' % (base, k), 'inv-init', inv)
         # 2. havoc
-        targets = vf.assigned_names(st)
+        targets = set(vf.assigned_names(st))
+        # ghost variables updated by ghost statements attached to statements of the loop body are loop-modified as well
+        c_ = self.frame.get('contract'); ghost_heap = set()
+        if c_ is not None and c_.ghost_after:
+            for n_ in ast.walk(st):
+                if isinstance(n_, (ast.Expr, ast.Assign, ast.AugAssign)):
+                    for gname, _ in c_.ghost_after.get(ast.unparse(n_), ()):
+                        if gname.isidentifier(): targets.add(gname)
+                        else:
+                            fld = gname.split('.')[-1]
+                            for cls_, fields_ in self.w.classes.items():
+                                if fld in fields_: ghost_heap.add('%s.%s' % (cls_, fld))
         facts = []
         for nme in sorted(targets):
             if nme in self.st.env and isinstance(self.st.env[nme], V):
@@ -2061,7 +2093,7 @@ class Exec:
             elif nme in self.st.env: pass
             elif nme in lc.get('vars', {}):
                 self.st.env[nme] = havoc(self.w.ty(lc['vars'][nme]), nme, facts)
-        hfs = set(vf.assigned_fields(self, st))
+        hfs = set(vf.assigned_fields(self, st)) | ghost_heap
         for mname in lc.get('modifies', []):      # declared in the sidecar: state touched through callees / yields inside the loop
             if mname == '$alloc': self.havoc_alloc(facts)
             elif '.' in mname: hfs.add(mname)
